@@ -90,7 +90,10 @@ func HarnessC12Fetch() {
 	}
 	// The property speaks of the selector only for the Automatic policy; an XR
 	// without any policy is explored without a selector.
-	selector := policy == 2 && zz.Bool("revisionSelector")
+	// A Manual XR that references a revision may carry a selector too: it is
+	// irrelevant there (the XR keeps its revision).
+	manualWithRef := policy == 1 && cur >= 0
+	selector := (policy == 2 || manualWithRef) && zz.Bool("revisionSelector")
 	if selector {
 		xr.SetCompositionRevisionSelector(&metav1.LabelSelector{MatchLabels: map[string]string{"channel": "stable"}})
 	}
